@@ -335,7 +335,7 @@ def run_case(ctx: Ctx, ops: list) -> None:
 
 
 def check(ctx: Ctx) -> None:
-    ctx.given(histories, lambda ops: run_case(ctx, ops), ctx.n(400, 32000))
+    ctx.given(histories, lambda ops: run_case(ctx, ops), ctx.n(400, 16000))
 
 
 def replay(ctx: Ctx, case) -> None:
